@@ -72,8 +72,11 @@ BitLen(x) == IF x = 0 THEN 0 ELSE 1 + BitLen(x \div 2)
 ByteLen(limbs) == IF Len(limbs) = 0 THEN 0 ELSE (12 * (Len(limbs) - 1) + BitLen(limbs[Len(limbs)]) + 7) \div 8
 CcmStep(cfg, s, e) ==
    IF e.op = "new" THEN (IF ByteLen(e.msglen) > 15 - cfg.noncelen THEN <<[s EXCEPT !.failed = TRUE], "ValueError">> ELSE <<s, "none">>)
-   ELSE \* encrypt / decrypt of n bytes with an undeclared length: the whole message in one call
-        IF ByteLen(e.nlimbs) > 15 - cfg.noncelen THEN <<[s EXCEPT !.failed = TRUE], "ValueError">> ELSE <<s, "none">>
+   ELSE \* encrypt / decrypt of n bytes with an undeclared length: the whole message in one call.  A request beyond the limit
+        \* must be refused every time it is made, also on an object that has refused one before; what a request within the
+        \* limit does on an object that has refused a message is not specified ("any")
+        IF ByteLen(e.nlimbs) > 15 - cfg.noncelen THEN <<[s EXCEPT !.failed = TRUE], IF s.failed THEN "refusal" ELSE "ValueError">>
+        ELSE IF s.failed THEN <<s, "any">> ELSE <<s, "none">>
 \* ----------------------------------------------------------------
 InitOf(tr) == CASE tr.family = "ctr" -> CtrInit(tr.cfg) [] tr.family = "chacha" -> ChaInit(tr.cfg) [] tr.family = "ccm" -> CcmLimInit(tr.cfg)
 StepOf(tr, s, e) == CASE tr.family = "ctr" -> CtrStep(tr.cfg, s, e) [] tr.family = "chacha" -> ChaStep(tr.cfg, s, e) [] tr.family = "ccm" -> CcmStep(tr.cfg, s, e)
@@ -81,7 +84,8 @@ RECURSIVE Samples(_,_,_,_,_)
 Samples(tr, sOld, sNew, bs, i) == IF i > Len(bs) THEN "ok" ELSE
    LET v == IF tr.family = "ctr" THEN CtrSampleVerdict(tr.cfg, sOld, sNew, bs[i]) ELSE ChaSampleVerdict(tr.cfg, bs[i])
    IN IF v # "ok" THEN v ELSE Samples(tr, sOld, sNew, bs, i + 1)
-ExcOk(tr, expected, got) == IF expected = "none" THEN got = "none"
+ExcOk(tr, expected, got) == IF expected = "any" THEN TRUE ELSE IF expected = "refusal" THEN got \in {"ValueError", "TypeError"}   \* the call-order guard may refuse first
+                            ELSE IF expected = "none" THEN got = "none"
                             ELSE IF tr.family = "chacha" THEN got \in {"ValueError", "OverflowError"} ELSE got = expected
 StepVerdict(tr, s, r, e) ==
    IF ~ExcOk(tr, r[2], e.exc) THEN
